@@ -6,7 +6,7 @@ from core import hx, unhx
 LEAN_MODULE = 'QM.Props.C15Cmd'
 THEOREMS = ['Cv.C15_history_merge', 'Cv.C15_history', 'Cv.C15_list', 'Cv.C15_list_total', 'Cv.C15_last', 'Cv.C15_bool_reset',
             'Cv.C15_keyval_fold', 'Cv.C15_keyval', 'Cv.C15_network_command_last', 'Cv.C15_network_command_last_dropins',
-            'Cv.string_key_last_in_block', 'Cv.C15_image_command_last', 'Cv.C15_pod_command_last', 'Cv.C15_build_command_last', 'Cv.C15_container_command_last']
+            'Conform.parse_bool_true', 'Conform.parse_bool_false', 'Conform.parse_bool_other', 'Cv.string_key_last_in_block', 'Cv.C15_image_command_last', 'Cv.C15_pod_command_last', 'Cv.C15_build_command_last', 'Cv.C15_container_command_last']
 ASSUMPTIONS = [
     'MM.SUnit (insertion-ordered association lists) models the ordered-multimap crate as SystemdUnit uses it; tied to the code by unit-script correspondence (load/merge/add/set/prepend/rename then all lookups)',
     'the command-level part ("the generated command reflects exactly that effective value") is a theorem over the converter models for the single-valued table keys of the .network, .image, .pod, .build and .container converters (C15_<type>_command_last: the last assignment, wherever made, is the option\'s value in the generated command); for the other key kinds it is checked on real conversions of generated histories (oracle), per key kind',
